@@ -19,6 +19,7 @@ after which the statement permits a resend; every recorded wait is a finite numb
 from __future__ import annotations
 
 import itertools
+import threading
 from typing import Any
 
 import httpx2
@@ -578,7 +579,149 @@ def run_client(case: dict[str, Any]) -> Outcome:
 # --------------------------------------------------------------------------- main
 
 
+# --------------------------------------------------------------------------- real sockets: did response bytes flow?
+
+
+class _WireServer:
+    """Loopback HTTP/1.1 server (raw sockets, one request per connection) in front of the in-process WSGI app.
+
+    Each received POST is answered by the next scripted behaviour: ``ok`` (the app's real response), ``close_before`` (the
+    connection is closed without a single response byte), ``reset_in_headers`` / ``reset_in_body`` (the response's first
+    bytes are sent and — 150 ms later, when the client has read them — the connection is reset), ``503``.
+    """
+
+    def __init__(self, wsgi: Any, script: list[str]) -> None:
+        import socket as _socket
+
+        self.wsgi = wsgi
+        self.script = list(script)
+        self.received: list[str] = []  # behaviour applied to each POST, in order
+        self.sock = _socket.socket(_socket.AF_INET, _socket.SOCK_STREAM)
+        self.sock.setsockopt(_socket.SOL_SOCKET, _socket.SO_REUSEADDR, 1)
+        self.sock.bind(("127.0.0.1", 0))
+        self.sock.listen(16)
+        self.sock.settimeout(0.2)
+        self.port = self.sock.getsockname()[1]
+        self.stop = False
+        self.thread = threading.Thread(target=self._run, daemon=True, name="verif-c38-wire")
+        self.thread.start()
+
+    def _run(self) -> None:
+        import socket as _socket
+        import struct as _struct
+        import time as _time
+
+        while not self.stop:
+            try:
+                conn, _ = self.sock.accept()
+            except TimeoutError:
+                continue
+            except OSError:
+                return
+            try:
+                conn.settimeout(5)
+                buf = b""
+                while b"\r\n\r\n" not in buf:
+                    chunk = conn.recv(65536)
+                    if not chunk:
+                        break
+                    buf += chunk
+                if b"\r\n\r\n" not in buf:
+                    continue
+                head, body = buf.split(b"\r\n\r\n", 1)
+                lines = head.decode("latin-1").split("\r\n")
+                method, path, _v = lines[0].split(" ", 2)
+                hdrs = {k.strip().lower(): v.strip() for k, v in (ln.split(":", 1) for ln in lines[1:] if ":" in ln)}
+                need = int(hdrs.get("content-length", "0"))
+                while len(body) < need:
+                    chunk = conn.recv(65536)
+                    if not chunk:
+                        break
+                    body += chunk
+                how = self.script.pop(0) if (self.script and method == "POST") else "ok"
+                if method == "POST":
+                    self.received.append(how)
+                if how == "close_before":
+                    continue  # closed below without a byte
+                req = httpx2.Request(method, f"http://test{path}", headers={k: v for k, v in hdrs.items() if k not in ("host", "connection")}, content=body)
+                r = self.wsgi.handle_request(req)
+                raw = b"".join(r.stream)  # type: ignore[arg-type]
+                status = 503 if how == "503" else r.status_code
+                out_h = [(k.decode("latin-1"), v.decode("latin-1")) for k, v in r.headers.raw if k.lower() not in (b"content-length", b"connection", b"transfer-encoding")]
+                head_out = (f"HTTP/1.1 {status} X\r\n" + "".join(f"{k}: {v}\r\n" for k, v in out_h) + f"Content-Length: {len(raw)}\r\nConnection: close\r\n\r\n").encode("latin-1")
+                if how in ("ok", "503"):
+                    conn.sendall(head_out + raw)
+                    continue
+                if how == "reset_in_headers":
+                    conn.sendall(head_out[: max(12, len(head_out) // 2)])
+                else:  # reset_in_body: complete headers, part of the body
+                    conn.sendall(head_out + raw[: max(1, len(raw) // 2)])
+                _time.sleep(0.15)
+                conn.setsockopt(_socket.SOL_SOCKET, _socket.SO_LINGER, _struct.pack("ii", 1, 0))
+            except Exception:
+                pass
+            finally:
+                try:
+                    conn.close()
+                except Exception:
+                    pass
+
+    def close(self) -> None:
+        self.stop = True
+        try:
+            self.sock.close()
+        finally:
+            self.thread.join(5)
+
+
+def run_wire(case: dict[str, Any]) -> Outcome:
+    """The statement allows a resend after "a disconnect before any response byte" — and hence not after one that came
+    once response bytes were flowing.  Exception classes of a mocked transport cannot tell the two apart (a ReadError
+    may be either), so this family uses a real loopback server that does one or the other, and counts the POSTs."""
+    out = Outcome()
+    cfgd = case["cfg"]
+    retry = _mk_config(cfgd)
+    srv = _WireServer(W.get_wsgi("plain"), case["script"])
+    outcome = "ok"
+    try:
+        try:
+            with http_connect(W.Svc, f"http://127.0.0.1:{srv.port}", retry=retry, compression_level=None) as p:
+                p.add(a=1.0, b=2.0)
+        except Exception as e:
+            outcome = type(e).__name__
+    finally:
+        srv.close()
+    got = srv.received
+    budget = (cfgd["max_retries"] + 1) if cfgd is not None else 1
+    out.label(f"posts={len(got)}", f"outcome={'ok' if outcome == 'ok' else 'raised'}", *[f"saw={h}" for h in sorted(set(got))])
+    out.nontrivial = any(h.startswith("reset_") for h in got)
+    out.note = {"received": got, "outcome": outcome, "script": case["script"]}
+    if len(got) > budget:
+        out.fail("wire/budget_exceeded", f"{len(got)} POSTs with max_retries+1={budget}: {got}")
+    for i, how in enumerate(got[:-1]):
+        if how.startswith("reset_"):
+            out.fail(f"wire/resent_after_response_bytes/{how}",
+                     f"POST #{i} was answered with the first bytes of a response ({how}) and then the connection was reset; "
+                     f"the client sent the request again (received: {got}, retry config {cfgd})")
+            break
+        if how == "ok":
+            out.fail("wire/resent_after_success", f"POST #{i} got a complete 200 response and was sent again: {got}")
+            break
+    return out
+
+
+_wire_cfg_on = st.fixed_dictionaries({"max_retries": st.sampled_from([1, 2, 3]), "backoff_base": st.just(0.0), "backoff_max": st.just(0.0),
+                                      "retryable": st.just([502, 503, 504]), "conn": st.sampled_from([True, True, False]),
+                                      "respect_ra": st.just(False)})
+_wire_cfg = st.sampled_from([0, 1, 1, 1, 1]).flatmap(lambda i: st.none() if i == 0 else _wire_cfg_on)  # one_of() would de-duplicate
+wire_cases = st.fixed_dictionaries(
+    {"cfg": _wire_cfg,
+     "script": st.lists(st.sampled_from(["reset_in_body", "reset_in_body", "reset_in_headers", "close_before", "503", "ok"]), min_size=1, max_size=3)}
+)
+
+
 def main(chk: Check) -> None:
+    chk.explore("wire", wire_cases, run_wire, quick=40, thorough=600)
     chk.extra["patch"] = dict(_PATCH)
     chk.explore("core", _core_cases(), run_core, quick=8000, thorough=120000)
     complete = chk.enumerate("grid", grid_cases(chk.quick), run_core)
